@@ -515,43 +515,51 @@ Qed.
 (* ================================================================== *)
 
 Definition refused_for (c : ccfg) (parent : json) (rules : list (option rule)) : Prop :=
-  exists r, In (Some r) rules /\ rule_bad (p_namespaced c) parent r = true.
+  exists x, In x rules /\ entry_bad (p_namespaced c) parent x = true.
 
-Lemma related_fold_bad c k parent r :
-  rule_bad (p_namespaced c) parent r = true ->
-  forall rules m0, In (Some r) rules -> is_ok (related_fold c k parent rules m0) = false.
+Lemma related_fold_bad c k parent x :
+  entry_bad (p_namespaced c) parent x = true ->
+  forall rules m0, In x rules -> related_fold c k parent rules m0 = Err.
 Proof.
   intros Hbad. induction rules as [|[r0|] rules IH]; intros m0 Hin; cbn [related_fold].
   - destruct Hin.
   - destruct Hin as [Hin | Hin].
-    + injection Hin as Hin. subst r0. unfold related_step.
-      destruct (lookup_res c (r_api_version r) (r_resource r)) as [kc|]; [|reflexivity].
-      assert (Hn : rule_objects c parent r (cached k (ch_res kc)) = None).
+    + subst x. cbn [entry_bad] in Hbad. unfold related_step.
+      destruct (lookup_res c (r_api_version r0) (r_resource r0)) as [kc|]; [|reflexivity].
+      assert (Hn : rule_objects c parent r0 (cached k (ch_res kc)) = None).
       { apply rule_objects_none. left. exact Hbad. }
       rewrite Hn. reflexivity.
     + destruct (related_step c k parent m0 r0) as [m1|]; [|reflexivity]. apply IH. exact Hin.
   - reflexivity.
 Qed.
 
+(* since the nil check, the loop never panics *)
 Lemma related_fold_no_panic c k parent :
-  forall rules m0, has_null_rule rules = false -> is_panic (related_fold c k parent rules m0) = false.
+  forall rules m0, is_panic (related_fold c k parent rules m0) = false.
 Proof.
-  induction rules as [|[r0|] rules IH]; intros m0 Hn; cbn [related_fold].
+  induction rules as [|[r0|] rules IH]; intros m0; cbn [related_fold].
   - reflexivity.
-  - cbn [has_null_rule existsb] in Hn. destruct (related_step c k parent m0 r0); [apply IH; exact Hn | reflexivity].
-  - cbn [has_null_rule existsb] in Hn. discriminate.
+  - destruct (related_step c k parent m0 r0); [apply IH | reflexivity].
+  - reflexivity.
 Qed.
 
+Theorem C15_related_never_panics_lemma c k parent rules :
+  is_panic (get_related_objects c k parent rules) = false.
+Proof. apply related_fold_no_panic. Qed.
+
 Theorem C15_invalid_rule_lemma c k parent rules :
-  refused_for c parent rules ->
-  is_ok (get_related_objects c k parent rules) = false /\
-  (has_null_rule rules = false -> get_related_objects c k parent rules = Err).
+  refused_for c parent rules -> get_related_objects c k parent rules = Err.
 Proof.
-  intros [r [Hin Hbad]]. unfold get_related_objects.
-  pose proof (related_fold_bad c k parent r Hbad rules [] Hin) as H1.
-  split; [exact H1|]. intros Hn. pose proof (related_fold_no_panic c k parent rules [] Hn) as H2.
-  destruct (related_fold c k parent rules []); [discriminate | reflexivity | discriminate].
+  intros [x [Hin Hbad]]. unfold get_related_objects. apply (related_fold_bad c k parent x Hbad rules [] Hin).
 Qed.
+
+(* a null entry is refused whatever the parent *)
+Lemma null_entry_refused c parent rules : In None rules -> refused_for c parent rules.
+Proof. intros H. exists None. split; [exact H | reflexivity]. Qed.
+
+Lemma bad_rule_refused c parent rules r :
+  In (Some r) rules -> rule_bad (p_namespaced c) parent r = true -> refused_for c parent rules.
+Proof. intros H Hb. exists (Some r). split; [exact H | exact Hb]. Qed.
 
 (* a rule with both selection styles is refused whatever the parent *)
 Lemma invalid_is_bad pn parent r : selection_type r = SelInvalid -> rule_bad pn parent r = true.
@@ -581,27 +589,23 @@ Proof.
   - constructor; [exact Hc | intros a _; apply IH].
 Qed.
 
-Lemma not_ok_cases (r : res umap) : is_ok r = false -> r = Err \/ r = Panic.
-Proof. destruct r; [discriminate | left; reflexivity | right; reflexivity]. Qed.
-
 Theorem sync_tail_refused c cc k parent observed h :
   has_customize c = true -> cache_refusing c cc ->
   safeP (customize_env c) (fun _ cl => C15_quiet_call c cl)
-        (fun _ r => fst r <> SDone) h (sync_tail_c c cc k parent observed).
+        (fun _ r => fst r <> SDone /\ fst r <> SPanic) h (sync_tail_c c cc k parent observed).
 Proof.
   intros Hc Hcc. unfold sync_tail_c, related_phase_c. rewrite Hc. cbn [negb].
   destruct (customize_lookup cc (parent_key parent)) as [rules|] eqn:El.
-  - cbn [bind].
-    destruct (not_ok_cases _ (proj1 (C15_invalid_rule_lemma c k parent rules (Hcc parent rules El)))) as [E | E];
-      rewrite E; cbn [rel_of_res]; constructor; cbn [fst]; discriminate.
+  - cbn [bind]. rewrite (C15_invalid_rule_lemma c k parent rules (Hcc parent rules El)).
+    cbn [rel_of_res]. constructor. cbn [fst]. split; discriminate.
   - cbn [bind]. constructor.
     + right. eexists. reflexivity.
-    + intros a Ha. destruct a as [o|e|body| |n]; cbn [bind]; try (constructor; cbn [fst]; discriminate).
-      destruct (decode_customize body) as [rules|] eqn:Ed; cbn [bind]; [|constructor; cbn [fst]; discriminate].
+    + intros a Ha. destruct a as [o|e|body| |n]; cbn [bind]; try (constructor; cbn [fst]; split; discriminate).
+      destruct (decode_customize body) as [rules|] eqn:Ed; cbn [bind]; [|constructor; cbn [fst]; split; discriminate].
       cbn [customize_env customize_request] in Ha. specialize (Ha rules Ed).
       cbn [obj_map jget alookup String.eqb Ascii.eqb Bool.eqb] in Ha.
-      destruct (not_ok_cases _ (proj1 (C15_invalid_rule_lemma c k parent rules Ha))) as [E | E];
-        rewrite E; cbn [rel_of_res]; constructor; cbn [fst]; discriminate.
+      rewrite (C15_invalid_rule_lemma c k parent rules Ha).
+      cbn [rel_of_res]. constructor. cbn [fst]. split; discriminate.
 Qed.
 
 Theorem sync_c_refused c cc k parent h :
@@ -658,10 +662,11 @@ Theorem C15_invalid_tail_lemma c cc k parent observed (e : env) :
   (forall h cl, customize_env c cl (e h cl)) ->
   Forall (fun hc => C15_quiet_call c (snd hc))
          (calls_with_history (fst (run (sync_tail_c c cc k parent observed) e []))) /\
-  fst (snd (run (sync_tail_c c cc k parent observed) e [])) <> SDone.
+  fst (snd (run (sync_tail_c c cc k parent observed) e [])) <> SDone /\
+  fst (snd (run (sync_tail_c c cc k parent observed) e [])) <> SPanic.
 Proof.
   intros Hc Hcc He.
-  apply (safeP_run (customize_env c) (fun _ cl => C15_quiet_call c cl) (fun _ r => fst r <> SDone) e
+  apply (safeP_run (customize_env c) (fun _ cl => C15_quiet_call c cl) (fun _ r => fst r <> SDone /\ fst r <> SPanic) e
               (sync_tail_c c cc k parent observed) (sync_tail_refused c cc k parent observed [] Hc Hcc) He).
 Qed.
 
@@ -858,3 +863,16 @@ Lemma quiet_call_meaning :
     match cl with CHook HSync _ | CHook HFinalize _ => False | _ => True end /\
     match cl with CApi q => q_verb q = VGet \/ q_verb q = VUpdate | _ => True end.
 Proof. intros c cl H. split; [apply (quiet_not_sync_hook c cl H) | apply (quiet_not_child_write c cl H)]. Qed.
+
+(* findRelatedParents for one parent and one changed object is the `triggers` predicate:
+   nil rules are skipped *)
+Lemma parent_woken_by_triggers c parent rules o :
+  parent_woken_by c parent rules [o] = triggers c parent (some_rules rules) o.
+Proof.
+  unfold parent_woken_by, triggers. induction rules as [|[r|] rules IH]; [reflexivity| |].
+  - change (some_rules (Some r :: rules)) with (r :: some_rules rules).
+    cbn [existsb]. rewrite <- IH. f_equal.
+    destruct (lookup_res c (r_api_version r) (r_resource r)) as [kc|]; [|reflexivity].
+    cbn [existsb]. apply Bool.orb_false_r.
+  - change (some_rules (None :: rules)) with (some_rules rules). cbn [existsb orb]. exact IH.
+Qed.
